@@ -60,6 +60,10 @@ CHECKS['C27'] = dict(
     level='proof',
     text='Theorems in Coq: the memory of closed streams never exceeds MAX_CLOSED_STREAMS over EVERY history (induction over all operations with the eviction test extracted from SizeLimitDict, unbounded length); PRIORITY on any id leaves the whole state unchanged; RST_STREAM / WINDOW_UPDATE on unknown ids and unknown frame types allocate no stream state; a decoded header list above the acknowledged MAX_HEADER_LIST_SIZE is refused with ENHANCE_YOUR_CALM (11). Long peer-driven programs are compared with the model on the stream tables; the CONTINUATION limit is covered by the frame-buffer model of C21.',
     design='7.C27', technique='Coq invariant by induction over histories + extracted guard + differential correspondence')
+CHECKS['C21'] = dict(
+    level='proof',
+    text='Theorems in Coq, for EVERY byte string and EVERY way of cutting it: (1) the loop of receive_data over the frame buffer (9-byte header, wait for the body, size check against the limit read from the receiver state before every frame, body parse, HEADERS/PUSH_PROMISE + CONTINUATION folding) run chunk by chunk equals one run on the concatenation - same receiver state (hence same events and emitted bytes), same exception at the same frame, same leftover bytes and partial header block - for arbitrary header/body parsers and an arbitrary stateful receiver (Section variables, no hypotheses); (2) the client preface checked piecewise equals the check on the concatenation; (3) on the connection model, receive_data per group of frames equals one call on all frames; (4) any sequence of data_to_send(amount) calls (None, 0, positive, oversized, negative) partitions the buffer. The frame-buffer model (instantiated with hyperframe 6.1 parse rules) is compared with the real FrameBuffer on chunked valid / mutated byte streams including 62..66 CONTINUATION frames; every generated connection program is replayed on the real H2Connection with each receive_data call cut one byte at a time / every 9 or 10 bytes with empty calls / randomly and all observations must equal the uncut run.',
+    design='7.C21', technique='Coq theorem by induction over chunk lists and fuel (parsers and receiver abstract) + differential correspondence + metamorphic replay on the implementation')
 NA_REASON = {}
 def main():
     checks = []
